@@ -1,6 +1,6 @@
 """C05 — concrete-dependency functions yield a leaf trait any application can adopt."""
 from ..common import Report
-from ..corpus import load
+from ..corpus import load, load_repo_tests
 from ..model import ty_s
 from ..wrules import (is_mock_impl, FnModView, check_fnmod_delegation, entrait_depth, in_macro, is_impl_adt, pred_set)
 
@@ -9,8 +9,10 @@ def run(tier):
     rep = Report("C05", tier, "translation_validation")
     configs = ["plain", "unimock_test"] if tier == "quick" else ["plain", "test", "unimock", "unimock_test"]
     programs = 0
-    for cfg in configs:
-        ld = load(rep, "pos", cfg)
+    loaded = [(cfg, load(rep, "pos", cfg)) for cfg in configs]
+    if tier == "thorough":
+        loaded.append(("unimock_test", load_repo_tests(rep)))
+    for cfg, ld in loaded:
         for exp in ld.crate.expansions:
             if exp.mode != "fn":
                 continue
